@@ -149,6 +149,18 @@ pub fn cases() -> Vec<Case> {
     v.push(case("sort/ret-of-computation", Reject, "do x <- ret (ret 1);\n! exit 0\n"));
     v.push(case("sort/value-as-body", Reject, "let f = { fn (n : Int64) => n } in\n! exit 0\n"));
     v.push(case("sort/hole-left-in-annotation", Either, "let x : _ = 5 in\n! exit x\n"));
+    // binders are one-arm matches: a constructor pattern in a let / do / fn / fix binder does not cover its type
+    let opt = "def Opt : VType = data | +None : Unit | +Some : Int64 end that\n";
+    v.push(case("binder/refutable-let", Reject, &format!("begin\n{opt}let v : Opt = +None() in\nlet +Some(x) = v in\n! exit x\nend\n")));
+    v.push(case("binder/refutable-do", Reject, &format!("begin\n{opt}do +Some(x) <- ret (+None() : Opt);\n! exit x\nend\n")));
+    v.push(case("binder/refutable-fn", Reject, &format!("begin\n{opt}(fn (+Some(x) : Opt) => ! exit x) +None()\nend\n")));
+    v.push(case("binder/refutable-nested-in-tuple", Reject, &format!("begin\n{opt}let (a, +Some(x)) : Int64 * Opt = (1, +None()) in\n! exit x\nend\n")));
+    v.push(case("binder/refutable-alias", Reject, &format!("begin\n{opt}let v : Opt = +None() in\nlet (w; +Some(_)) = v in\n! exit 0\nend\n")));
+    v.push(case("binder/single-constructor-is-irrefutable", Accept, "begin\ndef Box : VType = data | +Box : Int64 end that\nlet +Box(x) = (+Box(7) : Box) in\n! exit x\nend\n"));
+    // typed term holes: accepted by design (their types are reported), never executable
+    v.push(case("hole/term-hole-value", Either, "let x : Int64 = _ in\n! exit x\n"));
+    v.push(case("hole/term-hole-computation", Either, "let x : Thk OS = { _ } in\n! x\n"));
+    v.push(case("hole/term-hole-unreached", Either, "let x : Int64 = _ in\n! exit 0\n"));
     v.push(case("sort/unsolved-hole-argument", Either, "let id = { fn (X : VType) (z : X) => ret z } in\ndo x <- ! id _ 5;\n! exit x\n"));
     v
 }
